@@ -99,6 +99,13 @@ XercesDOMParsedSource::XercesDOMParsedSource(
     m_parserLiaison.setExternalSchemaLocation(theExternalSchemaLocation);
     m_parserLiaison.setExternalNoNamespaceSchemaLocation(theExternalNoNamespaceSchemaLocation);
 
+    // A parsed source exists to be used for any number of transformations,
+    // possibly by several threads at once (see the FAQ on thread safety).
+    // The liaison's default is a wrapper whose string pool is not
+    // synchronized, so ask for the thread-safe one, which also builds all of
+    // the wrapper nodes up front.
+    m_parserLiaison.setThreadSafe(true);
+
     m_parsedSource = m_parserLiaison.parseXMLStream(theInputSource);
     assert(m_parsedSource != 0);
 
